@@ -1,4 +1,4 @@
-import Vore.Spec.Grammar
+import Vore.Spec.ParserGrammar
 /-!
 # Vore.Lemmas.ParserBasics — the small program logic used to relate `Model.Parser` and `Spec.Grammar`
 
